@@ -596,15 +596,21 @@ func (u *Unit) execBuiltin(fr *frame, st *State, b *ssa.Builtin, call *ssa.CallC
 	case "recover":
 		return Sc{TNil, resT}
 	case "copy":
-		// copy(dst, src): destination elements havocked
-		if d, ok := args[0].(SliceV); ok {
+		// copy(dst, src): n = min(len dst, len src) leading elements of dst are overwritten (scalar elements)
+		d, ok1 := args[0].(SliceV)
+		sr, ok2 := args[1].(SliceV)
+		if ok1 && ok2 {
 			if s := scalarSort(d.Elem); s != "" {
 				fam := cellFam(d.Elem)
-				st.Heap[fam] = u.ctx.Fresh("H", ArrSort(SInt, s))
+				arr := u.heapGet(st, fam, ArrSort(SInt, s))
+				n := u.ctx.Named("copied", Ite(Cmp("<=", d.Len, sr.Len), d.Len, sr.Len))
+				nh := u.ctx.Fresh("H", ArrSort(SInt, s))
+				q := fmt.Sprintf("(forall ((p Int)) (! (= (select %s p) (ite (and (= (ea_base p) %s) (= p (ea (ea_base p) (ea_idx p))) (<= %s (ea_idx p)) (< (ea_idx p) (+ %s %s))) (select %s (ea %s (+ %s (- (ea_idx p) %s)))) (select %s p))) :pattern ((select %s p))))",
+					nh.S, d.Arr.S, d.Off.S, d.Off.S, n.S, arr.S, sr.Arr.S, sr.Off.S, d.Off.S, arr.S, nh.S)
+				u.ctx.Assert(Implies(st.G, Term{q, SBool}), "copy")
+				st.Heap[fam] = nh
 				u.famSort[fam] = ArrSort(SInt, s)
 				u.written[fam] = true
-				u.note("copy(): destination element family havocked")
-				n := u.ctx.Fresh("copied", SInt)
 				return Sc{n, resT}
 			}
 		}
@@ -630,12 +636,29 @@ func (u *Unit) execAppend(st *State, call *ssa.CallCommon, args []Value, pos tok
 	elem := s.Elem
 	r := u.newObject(st)
 	newLen := u.ctx.Named("applen", Arith("+", s.Len, t.Len))
-	copyFam := func(fam, sortv string) {
+	// copyFam: the family holding a leaf reached from an element through the chain of by-value struct
+	// fields `path` (sub keys, outermost first) is copied element-wise into the new array.
+	copyFam := func(fam, sortv string, path []int) {
+		u.inAppendCopy++
 		arr := u.heapGet(st, fam, sortv)
+		u.inAppendCopy--
 		n := u.ctx.Fresh("H", sortv)
-		// frame + prefix copy + suffix copy
-		q := fmt.Sprintf("(forall ((p Int)) (! (= (select %s p) (ite (and (= (ea_base p) %s) (= p (ea (ea_base p) (ea_idx p)))) (ite (< (ea_idx p) %s) (select %s (ea %s (+ %s (ea_idx p)))) (select %s (ea %s (+ %s (- (ea_idx p) %s))))) (select %s p))) :pattern ((select %s p))))",
-			n.S, r.S, s.Len.S, arr.S, s.Arr.S, s.Off.S, arr.S, t.Arr.S, t.Off.S, s.Len.S, arr.S, n.S)
+		// elem(p): the element address p belongs to; cond: p is exactly the leaf location of a new element
+		elemOf := "p"
+		var conds []string
+		for i := len(path) - 1; i >= 0; i-- {
+			conds = append(conds, fmt.Sprintf("(= (sub_key %s) %d)", elemOf, path[i]), fmt.Sprintf("(= %s (sub (sub_base %s) %d))", elemOf, elemOf, path[i]))
+			elemOf = "(sub_base " + elemOf + ")"
+		}
+		conds = append(conds, fmt.Sprintf("(= (ea_base %s) %s)", elemOf, r.S), fmt.Sprintf("(= %s (ea (ea_base %s) (ea_idx %s)))", elemOf, elemOf, elemOf))
+		idx := "(ea_idx " + elemOf + ")"
+		srcElem := fmt.Sprintf("(ite (< %s %s) (ea %s (+ %s %s)) (ea %s (+ %s (- %s %s))))", idx, s.Len.S, s.Arr.S, s.Off.S, idx, t.Arr.S, t.Off.S, idx, s.Len.S)
+		src := srcElem
+		for _, k := range path {
+			src = fmt.Sprintf("(sub %s %d)", src, k)
+		}
+		q := fmt.Sprintf("(forall ((p Int)) (! (= (select %s p) (ite (and %s) (select %s %s) (select %s p))) :pattern ((select %s p))))",
+			n.S, strings.Join(conds, " "), arr.S, src, arr.S, n.S)
 		u.ctx.Assert(Implies(st.G, Term{q, SBool}), "append-copy")
 		st.Heap[fam] = n
 		u.famSort[fam] = sortv
@@ -643,16 +666,32 @@ func (u *Unit) execAppend(st *State, call *ssa.CallCommon, args []Value, pos tok
 	}
 	if isStructType(elem) {
 		u.usedStructAppend = true
-		u.forEachFlatFam(elem, func(fam, sortv string) {
-			if u.relevant != nil && !u.relevant[fam] {
+		var walk func(t types.Type, path []int, depth int)
+		walk = func(t types.Type, path []int, depth int) {
+			st2, ok := t.Underlying().(*types.Struct)
+			if !ok || depth > 3 {
 				return
 			}
-			copyFam(fam, sortv)
-		})
-		u.note("append of struct elements: nested struct fields copied per family at element addresses (sub-addresses of elements are not re-based)")
+			for i := 0; i < st2.NumFields(); i++ {
+				ft := st2.Field(i).Type()
+				if isStructType(ft) {
+					walk(ft, append(append([]int{}, path...), u.w.subKey(fieldFam(t, i))), depth+1)
+					continue
+				}
+				for _, c := range comps(ft) {
+					fam := fieldFam(t, i) + c[0]
+					if u.relevant != nil && !u.relevant[fam] {
+						continue
+					}
+					copyFam(fam, ArrSort(SInt, c[1]), path)
+				}
+			}
+		}
+		walk(elem, nil, 0)
+		u.note("append of struct elements: element fields (including by-value nested structs) are copied per family")
 	} else {
 		for _, c := range comps(elem) {
-			copyFam(cellFam(elem)+c[0], ArrSort(SInt, c[1]))
+			copyFam(cellFam(elem)+c[0], ArrSort(SInt, c[1]), nil)
 		}
 	}
 	return SliceV{r, TZero, newLen, elem}
@@ -708,7 +747,7 @@ func (u *Unit) runDefers(fr *frame, st *State) {
 // ---------------------------------------------------------------------------
 // write-set scanning for calls inside cut loops
 
-func (u *Unit) scanCallWrites(fr *frame, call *ssa.CallCommon, ws *writeSet, inLoop func(ssa.Value) bool, depth int) {
+func (u *Unit) scanCallWrites(fr *frame, call *ssa.CallCommon, instr ssa.Value, ws *writeSet, inLoop func(ssa.Value) bool, depth int) {
 	if call.IsInvoke() {
 		if c := u.w.ifaceContract(call.Value.Type(), call.Method.Name()); c != nil {
 			u.scanContractWrites(c, ws)
@@ -734,10 +773,15 @@ func (u *Unit) scanCallWrites(fr *frame, call *ssa.CallCommon, ws *writeSet, inL
 		case "append":
 			ws.allocs = true
 			if sl, ok := call.Args[0].Type().Underlying().(*types.Slice); ok {
+				// append always returns a fresh backing array: the written cells belong to an object allocated here
+				var base ssa.Value
+				if instr != nil && depth == 0 {
+					base = instr
+				}
 				if isStructType(sl.Elem()) {
-					u.forEachFlatFam(sl.Elem(), func(fam, sortv string) { ws.add(fam, sortv, nil, inLoop) })
+					u.addStructWriteBase(ws, sl.Elem(), 0, base, inLoop)
 				} else {
-					u.addTypeWrite(ws, cellFam(sl.Elem()), sl.Elem(), nil, inLoop)
+					u.addTypeWrite(ws, cellFam(sl.Elem()), sl.Elem(), base, inLoop)
 				}
 			}
 		case "delete":
